@@ -697,3 +697,23 @@ def expected_final(scn, init, an):
 
 def strip_hash(c):
     return {p: v[:2] if v[0] == "f" else v for p, v in c.items()}
+
+
+def exhaustive_plans(k, mode="name", strategy="stop", roots=1):
+    """Every function from k selected files to a universe of names (the selected names themselves, an
+    existing unselected file, an existing dangling link, a fresh name) in EVERY processing order."""
+    import itertools
+    names = ["a", "b", "c", "d"][:k]
+    universe = names + ["x", "lnk", "n"]
+    tree = [("out", "d", None), ("in", "d", None), ("in/x", "f", "X"), ("in/lnk", "l", "nowhere")] + [("in/" + n, "f", "C" + n) for n in names]
+    inputs = ["in"]
+    if roots == 2:
+        tree += [("in2", "d", None), ("in2/a", "f", "other-a"), ("in2/x", "f", "other-x")]
+        inputs.append("in2")
+    for dests in itertools.product(universe, repeat=k):
+        for order in itertools.permutations(range(k)):
+            plan = [{"dir": "in", "spelled": "in", "rel": names[i], "r": ("text", dests[i] if mode != "path" else dests[i])} for i in order]
+            if roots == 2:
+                plan.insert(len(plan) // 2, {"dir": "in2", "spelled": "in2", "rel": "a", "r": ("text", "q")})
+            yield {"tree": list(tree), "inputs": list(inputs), "mode": mode, "strategy": strategy, "dry": False, "answers": [],
+                   "fault": None, "plan": plan, "variant": FIXED_VARIANT}
